@@ -47,13 +47,16 @@ CONTENT_LENGTH = Contract(
 
 
 def parsedate_stub(ev, args, kwargs, node):
-    """email.utils.parsedate_to_datetime: a datetime, or ValueError / TypeError for unparsable input (A-date-parse)"""
+    """email.utils.parsedate_to_datetime: a datetime, or ValueError / TypeError for unparsable input, OverflowError for
+    absurd field values such as a 20-digit hour (A-date-parse)"""
     USED.add("A-date-parse")
-    k = ev.st.choose([z3.BoolVal(True)] * 3, force_record=True)
+    k = ev.st.choose([z3.BoolVal(True)] * 4, force_record=True)
     if k == 1:
         raise PyRaise("ValueError", None, getattr(node, "lineno", 0))
     if k == 2:
         raise PyRaise("TypeError", None, getattr(node, "lineno", 0))
+    if k == 3:
+        raise PyRaise("OverflowError", None, getattr(node, "lineno", 0))
     return ev.st.alloc(Obj("datetime", {"tzinfo": ev.st.fresh(Opt(Opaque("TZ")), "tz")}))
 
 
